@@ -703,6 +703,8 @@ def run(ctx):
 
     ctx.include("C06.9", "a Num2Bits / Bits2Num size judged `less than the prime size` really is: the size test is strict and the prime sizes are those of the field (shared with C11.2/C11.3)", lambda c: c11.rule_thresholds(c, c11.rule_primes(c) or {}))
     ctx.include("C06.7", "prerequisite shared with C14: phi insertion is iterated, renaming order and scope pairing, phi identity (a missing phi makes a merged variable look constant)", c14.rule_phi_insertion, c14.rule_phis_and_locals, c14.rule_plumbing)
+    ctx.include("C06.11", "constants are folded in the field of the curve chosen on the command line: the option reaches the runner, the runner keeps it when it is rebuilt, and CFG generation is handed the runner's curve (shared with C11.4)", c11.rule_fromstr, only=["main/curve-option-reaches-runner", "AnalysisRunner::", "generate_cfg/"])
+    ctx.include("C06.12", "the integer quotient `\\` is taken on the canonical representatives 0..p-1 of its operands, divisor tested first (shared with C16.9)", c16.rule_integer_quotient)
     import c10
 
     ctx.include("C06.10", "prerequisite shared with C10.1/C10.2: a constant is attributed to the variable the source names - blocks open and close the scope of declarations and of their renamed versions together, and every occurrence is renamed through the current scope (a read after a shadowing block must not resolve to the inner variable)", c10.rule_scopes, c10.rule_renaming)
